@@ -80,6 +80,13 @@ class C20(Prop):
     assumptions = ["the clock oracle is an arbitrary list of readings; monotonic()'s non-decreasing behaviour is not needed by any theorem"]
 
     def gen_case(self, rng, tier):
+        if rng.random() < 0.3:
+            # a full kernel script (interrupts, conditions, failures, run plans) from the kernel harness, run on both environments
+            from props import kernel_common as kc
+            factor = rng.choice([EIGHTH, Fraction(1, 2), Fraction(1)])
+            return {"kind": "kscript", "k": kc.gen_case(rng), "factor": cf.qjson(factor), "wall0": cf.qjson(rng.choice([0, 7])),
+                    "costs": [cf.qjson(rng.choice([0, 0, 1, 2, 8]) * EIGHTH * factor) for _ in range(rng.randint(1, 5))],
+                    "sleeps": [cf.qjson(rng.choice([Fraction(1, 2), Fraction(1), Fraction(3, 2)])) for _ in range(rng.randint(1, 3))]}
         nproc = rng.randint(1, 4)
         evs = ["e%d" % i for i in range(rng.randint(0, 2))]
         prog = []
@@ -102,7 +109,29 @@ class C20(Prop):
                 "sleeps": [cf.qjson(rng.choice([Fraction(1, 2), Fraction(1), Fraction(1), Fraction(3, 2)])) for _ in range(rng.randint(1, 4))],
                 "sync_at": sorted(rng.sample(range(12), rng.randint(0, 2)))}
 
+    def case_imports(self, case):
+        if case.get("kind") == "kscript":
+            from props import kernel_common as kc
+            return kc.COQ_IMPORTS
+        return self.coq_imports
+
+    def _run_kscript(self, case):
+        from props import kernel_common as kc
+        import onl.sim.rt as rt
+        plain = kc.run_case(case["k"])
+        clk = Clock(case["wall0"], case["costs"], case["sleeps"])
+        saved = (rt.monotonic, rt.sleep)
+        rt.monotonic, rt.sleep = clk.monotonic, clk.sleep
+        try:
+            robs = kc.run_case(case["k"], env_factory=lambda t0: rt.RealtimeEnvironment(initial_time=t0, factor=T(case["factor"]), strict=False))
+        finally:
+            rt.monotonic, rt.sleep = saved
+        return {"plain_trace": plain["trace"], "plain_results": plain["results"], "rt_obs": robs, "readings": len(clk.readings),
+                "slept": len(clk.slept)}
+
     def run_impl(self, case):
+        if case.get("kind") == "kscript":
+            return self._run_kscript(case)
         from onl.sim import Environment
         import onl.sim.rt as rt
         from onl.sim.core import EmptySchedule
@@ -149,6 +178,9 @@ class C20(Prop):
         return {"plain": plain, "plain_raised": praised, "rt": rtrace, "steps": steps, "real_start0": qs(rs0)}
 
     def agree_term(self, case, obs):
+        if case.get("kind") == "kscript":
+            from props import kernel_common as kc
+            return kc.agree_term(case["k"], obs["rt_obs"])      # the kernel model against the REAL-TIME environment's trace
         cfg = f"{{| factor := {cf.q(case['factor'])}; strict := {cf.b(case['strict'])}; env_start := {cf.q(case['t0'])} |}}"
         rs = obs["real_start0"]
         terms = []
@@ -178,6 +210,14 @@ class C20(Prop):
         return " &&\n  ".join(terms) if terms else "true"
 
     def monitor(self, case, obs):
+        if case.get("kind") == "kscript":
+            if obs["rt_obs"]["trace"] != obs["plain_trace"] or obs["rt_obs"]["results"] != obs["plain_results"]:
+                i = next((k for k, (a, b) in enumerate(zip(obs["rt_obs"]["trace"], obs["plain_trace"])) if a != b), None)
+                return [f"rt-trace-differs: kernel script: first difference at trace index {i}: "
+                        f"{obs['rt_obs']['trace'][i] if i is not None and i < len(obs['rt_obs']['trace']) else None} vs "
+                        f"{obs['plain_trace'][i] if i is not None and i < len(obs['plain_trace']) else None}; results "
+                        f"{obs['rt_obs']['results'][:3]} vs {obs['plain_results'][:3]}"]
+            return []
         msgs = []
         # same event sequence with the same values, for as far as the real-time run got
         n = len(obs["rt"])
@@ -213,10 +253,17 @@ class C20(Prop):
         return msgs[:3]
 
     def nontrivial(self, case, obs):
+        if case.get("kind") == "kscript":
+            return len(obs["plain_trace"]) >= 6 and obs["slept"] > 0
         st = [s for s in obs["steps"] if "sync" not in s]
         return len(st) >= 4 and any(s["sleeps"] for s in st)
 
     def shrink(self, case):
+        if case.get("kind") == "kscript":
+            from props import kernel_common as kc
+            for k in kc.shrink(case["k"]):
+                yield {**case, "k": k}
+            return
         p = case["prog"]
         for i in range(len(p)):
             if len(p) > 1:
@@ -231,6 +278,8 @@ class C20(Prop):
             yield {**case, "costs": case["costs"][:-1]}
 
     def describe(self, case, obs):
+        if case.get("kind") == "kscript":
+            return ["rt:kernel-script", "rt:factor=" + case["factor"]]
         keys = ["rt", "rt:strict" if case["strict"] else "rt:nonstrict", "rt:factor=" + case["factor"]]
         last = obs["steps"][-1]["out"].split(":")[0] if obs["steps"] else "none"
         keys.append("rt:ends-" + last)
